@@ -73,7 +73,7 @@ func vMkFn(in, out []reflect.Type, variadic bool) interface{} {
 	}).Interface()
 }
 
-const vNumShapes = 34
+const vNumShapes = 35
 
 // genInput draws one input from the grammar.
 func (h *vHist) genInput(tag string) vBadInput {
@@ -166,6 +166,10 @@ func (h *vHist) genInput(tag string) vBadInput {
 		in.fn = vMkFn(nil, []reflect.Type{reflect.ArrayOf(2, t)}, false)
 	case 32: // slice result; the options decide (flatten)
 		in.fn = vMkFn(nil, []reflect.Type{sliceT}, false)
+	case 33: // feeds the group it consumes: rejected for a cycle unless verification is deferred
+		st := reflect.StructOf([]reflect.StructField{{Name: "In", Type: vInType, Anonymous: true}, {Name: "X", Type: sliceT, Tag: `group:"g"`}})
+		in.fn = vMkFn([]reflect.Type{st}, []reflect.Type{t}, false)
+		in.opts = []ProvideOption{Group("g")}
 	default: // plain valid constructor; the options decide
 		in.fn = vMkFn(nil, []reflect.Type{t}, false)
 	}
@@ -221,6 +225,12 @@ func (in vBadInput) apply(s *Scope) vOutcome {
 func verifC14run(p *vProfile) {
 	h := &vHist{p: p}
 	a, b := h.newWorlds(nil, nil)
+	// an accepted feeder of group g that every later rejection must leave alone
+	for _, w := range []*vWorld{a, b} {
+		w := w
+		o := vGuard(func() error { return w.c.Provide(vC14Feeder, Group("g")) })
+		verifAssume(o.class == vcOK)
+	}
 	steps := h.skeleton()
 	pos := verifNdInt("inp.pos", p.nRegs+1)
 	for i, step := range steps {
@@ -242,16 +252,21 @@ func verifC14run(p *vProfile) {
 				ob := in.apply(b.scopes[s])
 				h.assert("C14.same", ob.class == vcOK)
 				verifWitness("input-accepted")
-				// whatever was accepted can be consumed without a panic
-				if in.api != 2 {
-					pa := vProbe(a.scopes[s])
-					pb := vProbe(b.scopes[s])
-					h.assert("C14.nopanic|probe,api="+vItoa(in.api)+","+in.desc+vOptDesc(in.opts), !vHasPanic(pa))
-					h.assert("C14.same", pa == pb)
-					verifObserve("probes " + pa)
-				}
 			} else {
 				verifWitness("input-rejected")
+			}
+			// whatever was accepted can be consumed without a panic, and a
+			// rejected input has changed nothing a consumer can see
+			if in.api != 2 {
+				pa := vProbe(a.scopes[s], o.class == vcOK)
+				pb := vProbe(b.scopes[s], o.class == vcOK)
+				h.assert("C14.nopanic|probe,api="+vItoa(in.api)+","+in.desc+vOptDesc(in.opts), !vHasPanic(pa))
+				if o.class == vcOK {
+					h.assert("C14.same", pa == pb)
+				} else {
+					h.assert("C14.notrace|probe,api="+vItoa(in.api)+","+in.desc, pa == pb)
+				}
+				verifObserve("probes " + pa)
 			}
 			a.takeSeg(true)
 			b.takeSeg(true)
@@ -299,9 +314,10 @@ type vProbeS struct {
 
 // vProbe consumes, from scope s, the keys an accepted input may have been
 // registered under and reports the verdict classes.
-func vProbe(s *Scope) string {
-	fns := []interface{}{
-		func(*vA) {}, func([]*vA) {}, func(vProbeG) {}, func(vProbeN) {}, func(vProbeS) {}, func(vI0) {}, func(*vT0) {},
+func vProbe(s *Scope, all bool) string {
+	fns := []interface{}{func(vProbeG) {}, func(*vA) {}}
+	if all {
+		fns = append(fns, func([]*vA) {}, func(vProbeN) {}, func(vProbeS) {}, func(vI0) {}, func(*vT0) {})
 	}
 	out := ""
 	for _, fn := range fns {
@@ -320,3 +336,5 @@ func vHasPanic(s string) bool {
 	}
 	return false
 }
+
+func vC14Feeder() *vA { return &vA{Tok: 7} }
